@@ -1,6 +1,6 @@
 module verifsim
 
-go 1.20
+go 1.22
 
 require github.com/dave/jennifer v0.0.0
 
